@@ -15,6 +15,8 @@ Section TreeInd.
   Variable P : tree -> Prop.
   Hypothesis HL : forall id wd hd, P (Leaf id wd hd).
   Hypothesis HN : forall o al pad kids, Forall P kids -> P (Node o al pad kids).
+  Hypothesis HW : forall id wd len, P (WLeaf id wd len).
+  Hypothesis HO : forall ow oh t, P t -> P (Over ow oh t).
 
   Fixpoint tree_ind' (t : tree) : P t :=
     match t with
@@ -26,6 +28,8 @@ Section TreeInd.
                | [] => Forall_nil P
                | k :: r => Forall_cons k (tree_ind' k) (go r)
                end) kids)
+    | WLeaf id wd len => HW id wd len
+    | Over ow oh t' => HO ow oh t' (tree_ind' t')
     end.
 End TreeInd.
 
@@ -37,7 +41,25 @@ Fixpoint wf (t : tree) : Prop :=
   | Node _ _ pad kids =>
       valid pad /\ (fix all (l : list tree) : Prop :=
                       match l with [] => True | k :: r => wf k /\ all r end) kids
+  | WLeaf _ wd len => valid wd /\ 0 <= len
+  | Over ow oh t' =>
+      (forall d, ow = Some d -> valid d) /\ (forall d, oh = Some d -> valid d) /\ wf t'
   end.
+
+Lemma wrap_height_valid : forall len width, 0 <= len ->
+  exists d, wrap_height len width = COk d /\ valid d.
+Proof.
+  intros len width H. unfold wrap_height.
+  assert (Hq : 0 <= (len + Z.max 1 width - 1) / Z.max 1 width) by (apply Z.div_pos; lia).
+  destruct (dimension None None None (Some ((len + Z.max 1 width - 1) / Z.max 1 width))) as [d| |] eqn:E.
+  - exists d. split; [reflexivity|]. exact (dimension_valid _ _ _ _ _ E).
+  - exfalso. unfold dimension in E. cbn [oneg odef orb] in E.
+    destruct (_ <? 0) eqn:E0 in E; [apply Z.ltb_lt in E0; lia|]. cbn [orb] in E.
+    destruct (HUGE <? 0) eqn:E1 in E; [|discriminate]. pose proof HUGE_pos. apply Z.ltb_lt in E1. lia.
+  - exfalso. unfold dimension in E. cbn [oneg odef orb] in E.
+    destruct (_ <? 0) eqn:E0 in E; [apply Z.ltb_lt in E0; lia|]. cbn [orb] in E.
+    destruct (HUGE <? 0) eqn:E1 in E; discriminate.
+Qed.
 
 Lemma wf_node : forall o al pad kids,
   wf (Node o al pad kids) <-> valid pad /\ Forall wf kids.
@@ -86,7 +108,9 @@ Proof. intros c (d & -> & H). exists d. auto. Qed.
 
 Theorem pw_valid : forall t, wf t -> exists d, pw t = RDim d /\ valid d.
 Proof.
-  induction t as [id wd hd|o al pad kids IH] using tree_ind'; intro Hw.
+  induction t as [id wd hd|o al pad kids IH|id wd len|ow oh t IH] using tree_ind'; intro Hw;
+    [| |cbn in Hw; exists wd; split; [reflexivity|tauto]
+     |cbn [wf] in Hw; destruct Hw as (Ho & _ & Ht); cbn [pw]; destruct ow as [d|]; [exists d; split; [reflexivity|apply Ho; reflexivity]|apply IH, Ht]].
   - cbn in Hw. exists wd. split; [reflexivity|tauto].
   - apply wf_node in Hw. destruct Hw as [Hp Hk]. cbn [pw].
     assert (Hall : Forall (fun r => exists d, r = RDim d /\ valid d) (map pw kids)).
@@ -179,7 +203,9 @@ Proof. intros phk al sizes ks. induction ks as [|k r IH]; intro idx; cbn [ph_kid
 
 Theorem ph_good : forall fuel t, wf t -> forall width, rep_good (ph fuel t width).
 Proof.
-  intros fuel. induction t as [id wd hd|o al pad kids IH] using tree_ind'; intros Hw width.
+  intros fuel. induction t as [id wd hd|o al pad kids IH|id wd len|ow oh t IH] using tree_ind'; intros Hw width;
+    [| |cbn in Hw; right; cbn [ph]; apply rep_of_good, wrap_height_valid; tauto
+     |cbn [wf] in Hw; destruct Hw as (_ & Ho & Ht); cbn [ph]; destruct oh as [d|]; [right; exists d; split; [reflexivity|apply Ho; reflexivity]|apply IH, Ht]].
   - cbn in Hw. right. exists hd. split; [reflexivity|tauto].
   - apply wf_node in Hw. destruct Hw as [Hp Hk]. cbn [ph].
     assert (IH' : Forall (fun k => forall wd, rep_good (ph fuel k wd)) kids).
@@ -247,7 +273,11 @@ Qed.
 
 Theorem ph_total : forall t, wf t -> forall width, exists f0, ph_stable t width f0.
 Proof.
-  induction t as [id wd hd|o al pad kids IH] using tree_ind'; intros Hw width.
+  induction t as [id wd hd|o al pad kids IH|id wd len|ow oh t IH] using tree_ind'; intros Hw width;
+    [| |cbn in Hw; destruct (wrap_height_valid len width (proj2 Hw)) as (d & Hd & Hv); exists O, d; split; [exact Hv|intros fuel _; cbn [ph]; rewrite Hd; reflexivity]
+     |cbn [wf] in Hw; destruct Hw as (_ & Ho & Ht); destruct oh as [d|];
+      [exists O, d; split; [apply Ho; reflexivity|reflexivity]
+      |destruct (IH Ht width) as (f0 & d & Hv & Hd); exists f0, d; split; [exact Hv|intros fuel Hf; cbn [ph]; apply Hd, Hf]]].
   - cbn in Hw. exists O, hd. split; [tauto|reflexivity].
   - apply wf_node in Hw. destruct Hw as [Hp Hk].
     assert (IH' : Forall (fun k => forall wd, exists f0, ph_stable k wd f0) kids).
